@@ -411,6 +411,15 @@ func (w *World) lmSplitSV(n *wnode) bool {
 	}
 	sort.Slice(svs, func(i, j int) bool { return svs[i] < svs[j] })
 	sv := svs[w.r.Intn(len(svs))]
+	var mapped []uint64 // supervoxels that currently belong to another body (merged / cleaved): the interesting ones
+	for _, x := range svs {
+		if n.lm.body(x) != x {
+			mapped = append(mapped, x)
+		}
+	}
+	if len(mapped) > 0 && w.r.Chance(0.7) {
+		sv = mapped[w.r.Intn(len(mapped))]
+	}
 	axis := w.r.Intn(3)
 	var coords []int
 	for z := 0; z < lmN; z++ {
